@@ -300,9 +300,12 @@ func (b *Batcher) trySendBatchAndUnlock(batch *Batch) {
 	batch.seq = b.outSeq
 	b.outSeq++
 	b.batch = nil
-	b.mu.Unlock()
 
+	// send under the lock: Stop closes fullBatches under the same lock, so it can't be closed
+	// between the shouldStop check and this send. The send never blocks because there are only
+	// opts.Workers batches in the cycle and the channel has the same capacity.
 	b.fullBatches <- batch
+	b.mu.Unlock()
 }
 
 func (b *Batcher) getBatch() *Batch {
